@@ -24,7 +24,27 @@ def hub_suite(qn=150, tn=1200, ops_q=60, ops_t=120, hostile=True):
     return s
 
 
+VOTES_TB = [
+    'model: coq/Hub/Votes.v (recordEventVote, getLastEventNonceByValidator, getSignerValidator, TryEventVoteRecord, eventVoteRecordTally for one chain) is hand-written; '
+    'tied to /repo by co-executing vote histories on the real msg server and EndBlocker (real stores, real claim hashes)',
+    'inputs, not verified: the staking snapshot (mock staking keeper: bonded flag, LastValidatorPower, LastTotalPower as the sum of bonded powers), the orchestrator registry (C17), the claim hash (C14); '
+    'applying an event is abstracted to "append to the log and credit its amount" (its effects: hub model, C01/C11)',
+]
+VOTES_RULE = ('seeded histories of 60-150 operations for 2-6 validators (equal powers, tiny totals 1..3 for threshold rounding, one dominant, near-boundary 30..37, random up to 1e6), '
+              '0..n registered orchestrators; operations: claims (in-order, repeated, skipped, arbitrary nonce, conflicting variants, from own account / orchestrator / foreign orchestrator / non-validator), '
+              'EndBlocker tallies, staking changes (powers and unbonding) between vote and tally. A case agrees when records, last observed nonce, per-validator nonces and credited supply match after every operation.')
+
+
+def votes_suite():
+    return [{'name': 'votes', 'quick': '-n 400 -ops 70', 'thorough': '-n 3000 -ops 150', 'shards': {'quick': 2, 'thorough': 16}}]
+
+
 PROPS = {
+    'C02': {'suites': votes_suite(), 'trusted_base': VOTES_TB, 'rule': VOTES_RULE,
+            'assumptions': ['event nonces are >= 1 (ExternalEvent.Validate) and staking powers are non-negative (hypothesis wf_vop of the theorems)',
+                            'LastTotalPower equals the sum of the bonded validators\' LastValidatorPower (cosmos-sdk staking invariant)']},
+    'C03': {'suites': votes_suite(), 'trusted_base': VOTES_TB, 'rule': VOTES_RULE,
+            'assumptions': ['event nonces are >= 1 (ExternalEvent.Validate)', 'vote records are never deleted (no pruning exists in the code base)']},
     'C04': {'suites': hub_suite(), 'trusted_base': HUB_TB, 'rule': HUB_RULE,
             'assumptions': ['chain ids are prefix-free (true of ethereum/minter/bsc/hub; checked by Example C04_hypothesis_satisfiable)',
                             'uint64 counters do not wrap (2^64 sends are unreachable)']},
@@ -47,7 +67,15 @@ PROPS = {
 # ---- texts for MANIFEST.json ----
 _HUB_NOTE = ('Trusted: Coq 8.16.1 kernel (vm_compute, no native_compute), extraction (ExtrOcamlBasic) + OCaml driver, the Go harness; the hand-written hub model is tied to /repo '
              'by co-executing generated histories on the real keepers on every run; x/bank, stores, protobuf are modelled not verified; staking and oracle are inputs.')
+_VOTES_NOTE = ('Trusted: Coq kernel, extraction + driver, Go harness; the hand-written votes model is tied to /repo by co-execution on the real msg server/EndBlocker; '
+               'staking, orchestrator registry and claim hash are inputs.')
 TEXT = {
+    'C02': {'technique': 'Coq invariant + tally lemma by induction over vote histories + correspondence',
+            'level': 'Theorems over all histories of claims, tallies and staking changes: every claim the tally applies has pairwise distinct voters holding, at tally time, at least 66% of total bonded power; the tally never panics; each recorded vote is attributed to a bonded validator resolved through the orchestrator registry or its own account. Monitors evaluate the same on the implementation.',
+            'note': _VOTES_NOTE},
+    'C03': {'technique': 'Coq refinement of the vote store to an append-only log + correspondence',
+            'level': 'Theorems: in every reachable state the applied claims carry nonces 1..L in order (exactly once, one claim per nonce), L is the stored last observed nonce, accepted iff applied, every EndBlocker only appends, validators\' claims are consecutive after the first one. Monitors on the implementation incl. effect = sum of applied amounts.',
+            'note': _VOTES_NOTE},
     'C04': {'technique': 'Coq invariant by induction over histories + extraction-based correspondence',
             'level': 'Theorems (all histories, all configurations with prefix-free chain ids): every transfer (chain,id) is at most once in pool+batches, ids within the counter, fresh ids on creation; the status clause is refuted by a kernel-checked witness (known finding). The model is co-executed with the real keeper on generated histories and the placement/status monitor runs on the implementation.',
             'note': _HUB_NOTE},
